@@ -171,7 +171,7 @@ pub fn run(ctx: &Ctx) -> i32 {
         ];
         total.merge(run_fuzz_leg(ctx, "fz_pool", "poolsim", Some(d.prop), ctx.cases(0, 40_000), 400, seeds));
     }
-    if d.prop == "C02" || d.prop == "C05" || d.prop == "C15" || d.prop == "C14" {
+    if d.prop == "C02" || d.prop == "C05" || d.prop == "C15" || d.prop == "C14" || d.prop == "C04" {
         // idle-list pressure: one origin, HTTP/1 only, idle bound 1 or 2, many releases without readiness
         // and peer closes, connection flavour "open = not closed" in three of four cases
         let wt = Weights { issue: 20, poll: 30, cancel: 2, dial_ok: 14, dial_fail: 0, hs_ok: 14, hs_fail: 0, release: 18, ready: 5, close: 9, takeover: 0, bg: 18, warm: 6, advance: 0, hold: 4, sleep: 0, h2_pct: 0, alpn_pct: 0, origins: 1 };
